@@ -67,7 +67,7 @@ func (g *genState) config() map[string]any {
 	if boolOf(cfg, "metaStrict") && r.Chance(1, 2) {
 		cfg["metaInc"] = []any{"team"}
 	}
-	if r.Chance(1, 3) || g.prop == "C20" {
+	if r.Chance(1, 3) || g.prop == "C20" || g.prop == "C11" {
 		var hs []any
 		lim := func() int {
 			if g.prop == "C20" {
@@ -105,11 +105,22 @@ func (g *genState) config() map[string]any {
 		// a second realm with the same URIs in use; its own settings
 		cfg2 := map[string]any{"uri": "r2", "strict": false, "disclose": r.Chance(1, 2), "metaKill": r.Chance(3, 4),
 			"metaModify": r.Chance(1, 2), "metaStrict": false}
-		if hs, ok := cfg["history"]; ok && r.Chance(1, 2) {
+		if hs, ok := cfg["history"]; ok && r.Chance(3, 4) {
 			cfg2["history"] = hs
 		}
 		g.realms = append(g.realms, "r2")
 		cfg = map[string]any{"realms": []any{cfg, cfg2}}
+		if r.Chance(1, 2) {
+			// realms created on demand from a template (with the same history configuration)
+			tmpl := map[string]any{"uri": "tmpl", "strict": false, "disclose": true, "metaKill": true, "metaModify": false, "metaStrict": false}
+			if hs, ok := cfg2["history"]; ok {
+				tmpl["history"] = hs
+			} else if r.Chance(1, 2) {
+				tmpl["history"] = []any{map[string]any{"topic": "a", "match": "prefix", "limit": 2}}
+			}
+			cfg["template"] = tmpl
+			g.realms = append(g.realms, "t1", "t2", "bad realm")
+		}
 	}
 	g.cfg = cfg
 	return cfg
@@ -402,7 +413,7 @@ func (g *genState) next() map[string]any {
 		}
 	}
 	w := r.Intn(100)
-	if g.prop == "C20" && r.Chance(1, 2) {
+	if g.histBias() && r.Chance(1, 2) {
 		w = hcommon.Pick(r, []int{20, 20, 85, 85, 85, 10}) // publish / meta call / subscribe
 	}
 	switch {
@@ -430,7 +441,7 @@ func (g *genState) next() map[string]any {
 		return msg(34, g.req(k), pickInt(r, append(append([]int{}, g.subs[k]...), g.allSubs...), 1+r.Intn(8)))
 	case w < 38: // PUBLISH
 		t := hcommon.Pick(r, topics)
-		if g.prop == "C20" && r.Chance(3, 4) {
+		if g.histBias() && r.Chance(3, 4) {
 			t = hcommon.Pick(r, g.histTopics())
 		} else if len(g.subTopics) > 0 && r.Chance(1, 2) {
 			t = hcommon.Pick(r, g.subTopics)
@@ -608,6 +619,12 @@ func (g *genState) histTopics() []string {
 	return res
 }
 
+// histBias: the history-oriented choices (publications to history topics, get_events) are
+// made for C20 and, half of the time, for the multi-realm property.
+func (g *genState) histBias() bool {
+	return g.prop == "C20" || (g.prop == "C11" && g.rng.Chance(1, 2))
+}
+
 func (g *genState) remove(k int) {
 	for i, x := range g.live {
 		if x == k {
@@ -625,12 +642,12 @@ func (g *genState) metaCall(k int) map[string]any {
 		return map[string]any{"op": "msg", "s": k, "m": []any{48, rq, map[string]any{}, proc, args, kw}}
 	}
 	subID := pickInt(r, g.allSubs, 1+r.Intn(6))
-	if g.prop == "C20" && r.Chance(3, 4) {
+	if g.histBias() && r.Chance(3, 4) {
 		subID = 1 + r.Intn(2) // the pre-created history subscriptions
 	}
 	regID := pickInt(r, g.allRegs, 20+r.Intn(6))
 	sel := r.Intn(24)
-	if g.prop == "C20" && r.Chance(2, 3) {
+	if g.histBias() && r.Chance(2, 3) {
 		sel = 21
 	}
 	if g.prop == "C12" && r.Chance(1, 2) {
